@@ -36,7 +36,9 @@ CONSTANTS
     Kinds,      \* subset of the call alphabet
     FixD1,      \* dedup key of a Horner step includes its accumulator
     FixD2,      \* dedup keeps a duplicate whose out is already defined
-    FixFuse     \* fusion refuses a mul whose result slot is defined elsewhere
+    FixFuse,    \* fusion refuses a mul whose result slot is defined elsewhere
+    NoFold      \* enumerate only calls that create a new node (a folded / CSE'd call returns an
+                \* existing id, so the program is equivalent to a shorter one)
 
 GF == 0 .. P-1
 None == -1                      \* absent slot / unset witness / undefined value
@@ -180,6 +182,7 @@ NCalls == Len(SelectSeq(calls, LAMBDA c : c.ret # 0))
 Call(op, args, ret) == [op |-> op, args |-> args, ret |-> ret]
 
 ValueCall(op, args, res) ==
+    /\ NoFold => Len(res.g) > Len(graph)
     /\ graph' = res.g
     /\ handles' = Append(handles, res.r)
     /\ calls' = Append(calls, Call(op, [i \in 1..Len(args) |-> HandleOf(args[i])], res.r))
@@ -200,7 +203,8 @@ Horner4 == CanCall("horner") /\ \E a, b, c, d \in Operands :
 Select3 == CanCall("select") /\ \E b, t, s \in Operands :
               ValueCall("select", <<b, t, s>>, SelectE(graph, b, t, s))
 
-CanConn(k) == stage = "build" /\ k \in Kinds /\ nconn < MaxConn
+NBools == Len(SelectSeq(calls, LAMBDA c : c.op = "abool"))
+CanConn(k) == stage = "build" /\ k \in Kinds /\ nconn + NBools < MaxConn
 
 ConnectPair(a, b) == IF a = b THEN conn ELSE Append(conn, <<a, b>>)
 
@@ -222,15 +226,17 @@ AssertZero ==
     /\ nconn' = nconn + 1
     /\ UNCHANGED <<graph, handles, stage, ops, w2, pubrows, privrows, nslots, rewrite>>
 
+\* assert_bool appends a BoolCheck node to the graph, so unlike connect / assert_zero its position
+\* among the value-producing calls is observable: it may come before later calls.  It shares the
+\* MaxConn budget; `nbool` counts it separately so that value calls remain enabled after it.
 AssertBool ==
-    /\ CanConn("abool")
+    /\ stage = "build" /\ "abool" \in Kinds /\ nconn = 0 /\ NBools < MaxConn
     /\ \E a \in Operands :
           LET res == BoolE(graph, a) IN
           /\ graph' = res.g
           /\ conn' = ConnectPair(a, res.r)
           /\ calls' = Append(calls, Call("abool", <<HandleOf(a)>>, 0))
-    /\ nconn' = nconn + 1
-    /\ UNCHANGED <<handles, stage, ops, w2, pubrows, privrows, nslots, rewrite>>
+    /\ UNCHANGED <<handles, nconn, stage, ops, w2, pubrows, privrows, nslots, rewrite>>
 
 (***************************************************************************)
 (* Lowering.                                                               *)
